@@ -489,6 +489,11 @@ class Lowerer:
             return c
         if t == 'SpreadElement':
             return ast.Starred(value=self.expr(n['argument']), ctx=ast.Load())
+        if t == 'ChainExpression':
+            # a?.b / a?.[i] / f?.(x): the same access, which yields undefined instead of throwing when the base is null/undefined
+            x = self.expr(n['expression'])
+            x.js_optional_chain = True
+            return x
         if t == 'BinaryExpression':
             op = n['operator']
             if op == 'instanceof':
